@@ -5,6 +5,7 @@ package bigbuff
 import (
 	"context"
 	"fmt"
+	"runtime"
 	"sync"
 	"time"
 )
@@ -320,12 +321,24 @@ func (r *bufRun) rangeOp(c int, bounded bool, script []int) {
 	op = append(op, script...)
 	ctx, cancel := context.WithCancel(context.Background())
 	defer cancel()
+	goexit := r.h.rng.Intn(2) == 0
 	o := r.exec(op, func() (out []int) {
 		var visited []int
 		end := 0
-		func() {
+		// The call runs in its own goroutine: a scripted "panic" is either a panic or (half of the time) a
+		// runtime.Goexit from inside the callback - the deferred rollback must treat both alike (the model's CbPanic:
+		// the in-flight value is rolled back, earlier ones stay committed); with Goexit the call never returns.
+		finished := make(chan struct{})
+		go func() {
+			defer close(finished)
 			defer func() {
 				if p := recover(); p != nil {
+					end = 2
+				}
+			}()
+			completed := false
+			defer func() {
+				if !completed {
 					end = 2
 				}
 			}()
@@ -351,6 +364,10 @@ func (r *bufRun) rangeOp(c int, bounded bool, script []int) {
 					_ = r.b.Put(context.Background(), k-1000)
 					return true
 				default:
+					if goexit {
+						r.h.count("range_callback_goexit", 1)
+						runtime.Goexit()
+					}
 					panic("verif: scripted callback panic")
 				}
 			}
@@ -360,10 +377,12 @@ func (r *bufRun) rangeOp(c int, bounded bool, script []int) {
 			} else {
 				err = Range(ctx, r.cons[c], fn)
 			}
+			completed = true
 			if err != nil {
 				end = 1
 			}
 		}()
+		<-finished
 		out = []int{100, end, len(visited)}
 		return append(out, visited...)
 	})
